@@ -38,11 +38,13 @@ RULE = (
     "strings, lists, tuples, sets, dicts, None, a float, a complex, a 2x2 matrix class for @), operands raw or other "
     "channels/nodes, owners inside one of two workflows with equally labelled children, or parentless, already run or "
     "not, chained on injected nodes, with exact repetitions (node vs channel form), near-identical twins (1 / '1', "
-    "True / 'True', None / 'None', [1] / '[1]', 1 / True / 1.0) and in-process pickle round trips of the parents "
-    "between expressions; the generator evaluates every candidate expression in Python and steers about 85 % of them "
-    "to valid ones, so that values and not only exceptions are compared; a sweep covers every operator in every "
-    "operand form inside and outside a parent; thorough additionally enumerates every binary operator over all pairs "
-    "of a 14-value pool and every unary operator over the whole pool.  non-trivial = at least 3 injected nodes were "
+    "True / 'True', None / 'None', [1] / '[1]', 1 / True / 1.0), in-process pickle round trips of the parents "
+    "between expressions, and restart histories (save, continue in a child interpreter with another PYTHONHASHSEED, "
+    "load, the same expressions again); the generator evaluates every candidate expression in Python and steers "
+    "about 85 % of them to valid ones, so that values and not only exceptions are compared; a sweep covers every "
+    "operator in every operand form inside and outside a parent; thorough additionally enumerates every binary "
+    "operator over all pairs of a 14-value pool and every unary operator over the whole pool.  non-trivial = at "
+    "least 3 injected nodes were "
     "compared against Python and at least one of them yielded a value"
 )
 TRUSTED = [
@@ -62,8 +64,8 @@ ASSUMPTIONS = [
     "channel operands are siblings of the owner (same parent) or all parentless, so scoped labels identify channels "
     "(the library itself refuses to pull a data graph with non-sibling nodes)",
     "type qualname + repr identify a raw operand (Coherent); values are not mutated between uses",
-    "reuse after pickling is checked within one interpreter process only: str hashes are salted per process, so labels "
-    "of injected nodes are not stable across interpreter sessions unless PYTHONHASHSEED is fixed",
+    "a new interpreter session is modelled as a change of the hash function (and only that); whether labels depend "
+    "on the session is probed on a fixed expression and fed to the model (cfg hash)",
 ]
 
 DUNDERS = ["getattr", "getitem", "lt", "le", "eq", "ne", "gt", "ge", "bool", "len", "contains", "add", "sub", "mul",
